@@ -13,7 +13,7 @@ R4 error exits precede effects: config read / parse errors make main return Err 
 """
 import re
 from .. import cfg
-from ..common import (call_chain, trace_bool, bool_switch_targets, enum_switch, return_values, single_def, field_switches)
+from ..common import (return_values_r, call_chain, trace_bool, bool_switch_targets, enum_switch, return_values, single_def, field_switches)
 from ..facts import op_place, op_const, rv_str
 from ..prov import Prov
 from . import edit
@@ -238,11 +238,14 @@ def run(ctx):
                     sw = (bb, tt, ft)
         ok = some_arm is not None and sw is not None
         if ctx.check(ok, P, "guards-shape|" + what, "%s: both guards decide a branch" % what, d.where()):
-            ctx.check(all(some_arm in dom.get(c.bb, ()) and sw[2] in dom.get(c.bb, ()) for c in effects), P, "guards-first|" + what,
+            eb = [c.bb for c in effects]
+            guarded = all(some_arm in dom.get(b, ()) and sw[2] in dom.get(b, ()) for b in eb) or \
+                (cfg.path_t(d, 0, eb, avoid=[some_arm]) is None and cfg.path_t(d, 0, eb, avoid=[sw[2]]) is None)
+            ctx.check(guarded, P, "guards-first|" + what,
                       "%s: every pass / the counter / the lock write runs only after discovery succeeded with a non-empty list" % what, d.where())
             for arm, why in ((none_arm, "discovery failure"), (sw[1], "empty file list")):
                 region = cfg.reach_t(d, arm)
-                rets = [st for (rb, st) in return_values(d) if rb in region]
+                rets = [st for (rb, st) in return_values_r(d) if rb in region]
                 ctx.check(bool(rets) and all(is_err_agg(s) for s in rets), P, "guard-err|%s|%s" % (what, why), "%s: %s returns Err" % (what, why), d.where())
             # the emptiness test is on the finder's list
             ch, root = call_chain(d, ie[0].args[0])
